@@ -524,7 +524,7 @@ type jcase struct {
 // forEachJSONCase enumerates, in a fixed order, the corrupted documents of a root. fn returns false to stop.
 func forEachJSONCase(rt jroot, cat *catalogue, seed int64, thorough bool, fn func(i int, jc jcase) bool) {
 	r := rand.New(rand.NewSource(seed*1000003 + nameHash(rt.Name)))
-	nDocs, maxNodes, heavyNodes, maxCuts := 3, 8, 1, 60
+	nDocs, maxNodes, heavyNodes, maxCuts := 2, 8, 1, 40
 	if thorough {
 		nDocs, maxNodes, heavyNodes, maxCuts = 6, 40, 2, 400
 	}
